@@ -90,6 +90,16 @@ def rowsFor (ys : List Q) (yLast : Q) (dup : Bool) (x : Q) (r : List Q) : List (
 /-- the lower edges of the cell `idx`, then its content: the CSV row of a cell -/
 def cellRow (axes : List (List Q)) (p : List Nat × Q) : List Q := (cellEdgesRef axes p.1).map (·.1) ++ [p.2]
 
+/-- the volume of a cell with edges `((lo, hi), …)`: the product of its side lengths -/
+def cellVolume : List (Q × Q) → Q
+  | [] => 1
+  | (lo, hi) :: rest => (hi - lo) * cellVolume rest
+
+/-- the integral of a histogram, independently of `integral`: the sum over the cells of `iter_bins` of
+volume × content -/
+def integralRef (axes : List (List Q)) (bins : NArr Q) : Q :=
+  ((cells bins).map (fun p => cellVolume (cellEdgesRef axes p.1) * p.2)).sum
+
 /-- the number of edges not greater than `v` (`bisect_right`) -/
 def edgesNotAbove (e : List Q) (v : Q) : Nat := e.countP (fun x => decide (x ≤ v))
 
